@@ -20,6 +20,14 @@ def answer (line : String) : String :=
   | "prog" :: rest =>
     let s := runProg (String.intercalate " " rest)
     summary s ++ (if s.bad.isSome then "" else " " ++ satSummary s)
+  | "prog2" :: rest =>
+    match (String.intercalate " " rest).splitOn "||" with
+    | [a, b] =>
+      let sa := runProg a
+      let sb := runProg b
+      if sa.bad.isSome || sb.bad.isSome then "bad-op"
+      else summary sa ++ " " ++ Composer.proveOutcome sa.c sb.c
+    | _ => "bad-request"
   | "shape" :: rest => summary (runProg (String.intercalate " " rest))
   | "dump" :: rest => dumpState (runProg (String.intercalate " " rest))
   | _ => "bad-request"
